@@ -1,7 +1,8 @@
 """C37 Backend concurrency limits hold and lock operations are never blocked.
 
 Sema.tla (design model of sema.connectionLimitedBackend: token semaphore, freeze gate, lock-file bypass) is
-model-checked exhaustively (Limit, FrozenNoStart, LockNeverBlocked), four negative twins must be refuted, TLC
+model-checked exhaustively (Limit, FrozenNoStart, LockNeverBlocked; the context of a held-back operation may be
+cancelled), five negative twins must be refuted (among them: a cancelled waiter releases a token), TLC
 enumerates / samples schedules of the scheduler view, the Go driver replays them into the real wrapper over a gated
 fake backend, and TLC judges every recorded event trace with SemaProps!RecOK."""
 import concurrent.futures as cf
@@ -9,7 +10,8 @@ import json, os, re
 import verif
 
 TWINS = {"twin_token_after_gate": "FrozenNoStart", "twin_limit_locks": "LockNeverBlocked",
-         "twin_release_twice": "Limit", "twin_no_gate": "FrozenNoStart"}
+         "twin_release_twice": "Limit", "twin_no_gate": "FrozenNoStart",
+         "twin_cancel_releases": "Limit"}
 
 
 def cfg_consts(cfg):
@@ -36,7 +38,7 @@ def run(ctx):
     jobs["sim:schedS"] = ex.submit(ctx.tlc, "Sema", cfg="Sema_schedS.cfg", workers=4 if th else 2, name="gen_schedS", heap="2g",
                                    simulate="num=%d" % (2500 if th else 200), depth=100, deadlock=False,
                                    extra=["-seed", str(ctx.seed)], timeout=3000)
-    for c in (["design_quick", "design"] if th else ["design_quick"]):
+    for c in (["design_quick", "design_cancel", "design", "design_cancel_big"] if th else ["design_quick", "design_cancel"]):
         jobs["design:" + c] = ex.submit(ctx.tlc, "Sema", cfg="Sema_%s.cfg" % c, workers=8 if th else 3,
                                         name="design_" + c, timeout=3000, heap="6g" if th else "2g")
     for c in TWINS:
@@ -108,4 +110,5 @@ def run(ctx):
         "an operation 'starts' when the wrapper admits it (typeDependentLimit returns); the replay fires Freeze only when every goroutine is parked, so an operation admitted just before Freeze() returns cannot reach the wrapped backend afterwards (in free-running runs only the limit is checked)",
         "quiescence is detected from goroutine states (blocked on channel / mutex); the wrapped backend stamps start and end of every call with a global atomic clock",
         "where the real wrapper resolves a race (who gets a freed token or the freeze mutex) differently from the model behaviour that produced the schedule, the replay releases another parked operation (counted as adapted_events)",
-        "model bounds: <= 6 operations, 1-2 connections, <= 2 freezes; stress runs: 1-3 connections, up to 28 operations, all 4 operation kinds x 6 file types"])
+        "a context is cancelled only while the wrapper holds the operation back (queued for a slot or at the freeze gate; replayed from the schedules: at most one cancellation per schedule); the model allows a cancelled waiter to give up at once (no token taken or returned) or to stay queued, pass token and gate and return without calling the wrapped backend",
+        "model bounds: <= 6 operations, 1-2 connections, <= 2 freezes, <= 2 cancellations; stress runs: 1-3 connections, up to 28 operations, all 4 operation kinds x 6 file types"])
